@@ -16,7 +16,23 @@
     parameters (function / lambda / nested def) shadow: `C08_params_shadow`,
     `C08_call_through_param` (the call resolves to the non-callable parameter symbol and is
     diagnosed `call-procedural`: reported, never inlined), `C08_param_clause_holds`.
+    dotted calls through a parameter — `import a.b` (stored under the key `a.b`) + parameter `a` +
+    `a.b.f(x)`: `C08_dotted_call_through_param`, `C08_dotted_call_through_outer_param` (any nesting
+    depth), `C08_unaliased_dotted_import_not_resolved`, TEST `C08_test_dotted_import_param`;
+    across modules (RattrModel/CrossResolve.lean = `__resolve_target_and_ir`, `__is_defined_in`,
+    `__resolve_real_class_target`; hypotheses = `Cross.WF`, established by the executable
+    `Cross.wfCheck` which the harness evaluates on every real environment):
+    `C08_cross_callee_from_defining_file`, `C08_cross_function_from_own_module`,
+    `C08_cross_class_from_own_module`, `C08_cross_class_same_name`, `C08_cross_target_lookup_total`,
+    `C08_cross_full_holds` (+ `…_for_functions`), `C08_cross_class_without_own_key`,
+    TEST `C08_test_cross_same_named` (pinned rule vs the rule
+    before 2103117 / 8b74e12).
   Remaining defects (documented as theorems / counterexamples):
+    `C08_cex_static_method_through_param` — `Holder.sm` is a dotted KEY a parameter cannot shadow;
+    (repaired by bb30ccd: `C08_cex_fallback_rule_class_without_init_takes_foreign_init` /
+      `C08_cross_full_false_before_bb30ccd` are about the EARLIER rule — a class without `__init__`
+      is no IR key, the fallback took the first same-named class of ANY file; for the pinned code
+      `C08_cross_full_holds`, TEST `C08_test_class_without_init_not_expanded`)
     `C08_call_on_call_still_returns_target` — `f(p)(q)` is diagnosed yet `f` is returned (and
       later inlined with the OUTER arguments);
     `C08_comprehension_target_does_not_shadow` / `C08_cex_comprehension_target` — a comprehension
@@ -24,6 +40,7 @@
       `[f(v) for f in fs]` resolves `f` to the module-level Func and inlines it.
 -/
 import RattrProofs.Lemmas.VisitCtx
+import RattrProofs.Lemmas.C08Cross
 
 namespace Rattr.C08
 open Rattr Rattr.Strs Rattr.Context
@@ -436,6 +453,241 @@ theorem C08_call_on_call_clause_false : ¬ C08_call_on_call_clause := by
 
 theorem C08_full_false : ¬ C08_full := fun h => C08_target_clause_false h.2.1
 
+/-! ### dotted calls through a parameter: `a.b.f(x)` with `import a.b` and a parameter `a` -/
+
+/-- `import a.b` stores the symbol under the DOTTED key `a.b`; a parameter `a` shadows the key `a`
+only.  Whatever dotted keys the outer context holds, a dotted call whose FIRST component is a
+parameter of the calling function / lambda / nested def and whose full spelling is not itself bound
+is a method call on an object: it has no target, so nothing can be inlined. -/
+theorem C08_dotted_call_through_param (env : Env) (s : St) (ps : Params) (callee : Str)
+    (coc warn : Bool)
+    (hdot : nameOf callee ≠ lhsOf callee)
+    (hp : lhsOf callee ∈ ps.all)
+    (hn : nameOf callee ∉ ps.all)
+    (hnot : get? s.ctx (nameOf callee) = none) :
+    (getCallTarget env (FnA.addArguments { s with ctx := push s.ctx } ps).ctx callee coc warn).1 = none := by
+  apply C08_method_on_non_import env _ callee coc warn hdot
+  · rw [C08_non_params_unchanged s ps _ hn]; exact hnot
+  · intro t ht
+    rw [C08_params_shadow s ps _ hp] at ht
+    injection ht with ht
+    subst ht
+    simp [nameSym]
+
+/-- … at any nesting depth: a parameter of an ENCLOSING function / lambda keeps shadowing inside
+the scopes of inner lambdas / nested defs, whatever their own parameters are. -/
+theorem C08_dotted_call_through_outer_param (env : Env) (s : St) (ps ps2 : Params) (callee : Str)
+    (coc warn : Bool)
+    (hdot : nameOf callee ≠ lhsOf callee)
+    (hp : lhsOf callee ∈ ps.all)
+    (hn : nameOf callee ∉ ps.all) (hn2 : nameOf callee ∉ ps2.all)
+    (hnot : get? s.ctx (nameOf callee) = none) :
+    let inner := FnA.addArguments { s with ctx := push s.ctx } ps
+    (getCallTarget env (FnA.addArguments { inner with ctx := push inner.ctx } ps2).ctx callee coc warn).1
+      = none := by
+  intro inner
+  apply C08_method_on_non_import env _ callee coc warn hdot
+  · rw [C08_non_params_unchanged inner ps2 _ hn2, C08_non_params_unchanged s ps _ hn]; exact hnot
+  · intro t ht
+    by_cases h2 : lhsOf callee ∈ ps2.all
+    · rw [C08_params_shadow inner ps2 _ h2] at ht
+      injection ht with ht; subst ht; simp [nameSym]
+    · rw [C08_non_params_unchanged inner ps2 _ h2, C08_params_shadow s ps _ hp] at ht
+      injection ht with ht; subst ht; simp [nameSym]
+
+/-- the un-aliased dotted import on its own: `import a.b` binds the key `a.b`, NOT `a`; with
+nothing bound under the first component (and the full spelling unbound) the ladder classes
+`a.b.f()` as a method call — it is never resolved, shadowed or not (the C06 finding family; for C08
+it means the "only when m is an imported module" direction holds trivially for this spelling). -/
+theorem C08_unaliased_dotted_import_not_resolved (env : Env) (c : Context) (callee : Str)
+    (coc warn : Bool)
+    (hdot : nameOf callee ≠ lhsOf callee)
+    (hnot : get? c (nameOf callee) = none)
+    (hlhs : get? c (lhsOf callee) = none) :
+    (getCallTarget env c callee coc warn).1 = none :=
+  C08_method_on_non_import env c callee coc warn hdot hnot (by intro s hs; rw [hlhs] at hs; cases hs)
+
+def pkSubSym : Sym := { kind := .import_, name := "pk.sub".toList, callable := true,
+                        qual := "pk.sub".toList, modExists := true }
+
+/-- TEST (the seeded change C08-m5 flips this): root context of `import pk.sub`; inside
+`def run(pk, event)` the call `pk.sub.dfn(event)` has no target and is diagnosed "target is a
+method"; `import pk.sub as ps` + parameter `ps` likewise. -/
+theorem C08_test_dotted_import_param :
+    let root : Context := [[("pk.sub".toList, pkSubSym),
+                            ("ps".toList, { pkSubSym with name := "ps".toList })]]
+    let ps : Params := ⟨[], ["pk".toList, "ps".toList, "event".toList], none, [], none⟩
+    let ctx := (FnA.addArguments { ctx := push root } ps).ctx
+    getCallTarget env0 ctx "pk.sub.dfn()".toList false true =
+      (none, [mkDiag .info "call-method" "pk.sub.dfn()".toList]) ∧
+    getCallTarget env0 ctx "ps.dfn()".toList false true =
+      (none, [mkDiag .info "call-method" "ps.dfn()".toList]) ∧
+    -- unshadowed: the alias resolves to a member of the module, the un-aliased spelling does not
+    (getCallTarget env0 root "ps.dfn()".toList false true).1 =
+      some { kind := .import_, name := "dfn".toList, callable := true, qual := "pk.sub.dfn".toList } ∧
+    (getCallTarget env0 root "pk.sub.dfn()".toList false true).1 = none := by decide
+
+/-- defect (known finding `…function-parameter:dotted-static-method`): a static method is
+registered under the DOTTED key `Holder.sm`, which a parameter `Holder` cannot shadow — this is why
+`C08_dotted_call_through_param` needs the full spelling to be unbound. -/
+theorem C08_cex_static_method_through_param :
+    let smSym : Sym := { kind := .func, name := "Holder.sm".toList, callable := true,
+                         iface := some ⟨[], ["z".toList], none, [], none⟩ }
+    let root : Context := [[("Holder.sm".toList, smSym)]]
+    let ps : Params := ⟨[], ["Holder".toList, "v".toList], none, [], none⟩
+    (getCallTarget env0 (FnA.addArguments { ctx := push root } ps).ctx "Holder.sm()".toList false true).1
+      = some smSym := by decide
+
+/-! ### across modules: which file's function / class a call is expanded from
+
+`Cross.resolve` = `__resolve_target_and_ir` with followed imports.  The call's target symbol `t` is
+what `get_call_target` found in the CALLING function's own file context, so `t.file` is the file of
+the module global that Python's scoping rules pick; the property demands that the body which is
+inlined is that very definition — never a same-named symbol of another file. -/
+
+open Rattr.Cross in
+/-- whatever is expanded is `==` to the looked-up symbol and located IN THE SAME FILE
+(since fix 2103117 the target file's IR is consulted only for symbols of the target file). -/
+theorem C08_cross_callee_from_defining_file (env : Cross.Env) (hwf : WF env) (t k : FSym)
+    (h : expandedFrom env t = some k) :
+    k.key = (realSym env t).key ∧ k.file = (realSym env t).file := by
+  unfold expandedFrom at h
+  split at h
+  · rename_i l i hr
+    obtain ⟨k', hk', hkey, hfile⟩ := resolve_found env hwf t l i hr
+    rw [hk'] at h; injection h with h; subst h
+    exact ⟨hkey, hfile⟩
+  · cases h
+
+open Rattr.Cross in
+/-- functions, lambdas, static methods (`Func` targets): the body inlined for a bare call made in
+module M is M's own definition — same name, same interface, same file — whatever same-named (even
+`==`-equal) functions the target file or other followed imports define. -/
+theorem C08_cross_function_from_own_module (env : Cross.Env) (hwf : WF env) (t k : FSym)
+    (hk : t.kind ≠ .cls) (h : expandedFrom env t = some k) :
+    k.kind = t.kind ∧ k.name = t.name ∧ k.iface = t.iface ∧ k.file = t.file := by
+  have := C08_cross_callee_from_defining_file env hwf t k h
+  simp only [realSym, hk, if_false] at this
+  obtain ⟨hkey, hfile⟩ := this
+  simp only [FSym.key, Prod.mk.injEq] at hkey
+  exact ⟨hkey.1, hkey.2.1, hkey.2.2, hfile⟩
+
+open Rattr.Cross in
+/-- classes (fixes 8b74e12, bb30ccd): the initialiser that is inlined belongs to a class of the
+call target's NAME located in the CALLING file — never a same-named class of the target file or of
+another import (no hypothesis on which classes have an `__init__` is needed any more). -/
+theorem C08_cross_class_from_own_module (env : Cross.Env) (hwf : WF env) (t k : FSym)
+    (hk : t.kind = .cls) (h : expandedFrom env t = some k) :
+    k.kind = .cls ∧ k.name = t.name ∧ k.file = t.file := by
+  have := C08_cross_callee_from_defining_file env hwf t k h
+  simp only [realSym, hk, if_true] at this
+  obtain ⟨hkey, hfile⟩ := this
+  have hf := realClass_file env t
+  have hc : (realClass env t).kind = .cls ∧ (realClass env t).name = t.name := by
+    rcases realClass_eq env t with he | hm
+    · rw [he]; exact ⟨hk, rfl⟩
+    · exact candidates_spec hm
+  simp only [FSym.key, Prod.mk.injEq] at hkey
+  exact ⟨hkey.1.trans hc.1, hkey.2.1.trans hc.2, hfile.trans hf⟩
+
+open Rattr.Cross in
+/-- a class whose own file holds no IR key of that name (it has no `__init__`) is looked up as
+itself; being no key of any IR, its call is not expanded from another file's class. -/
+theorem C08_cross_class_without_own_key (env : Cross.Env) (t : FSym)
+    (h : ∀ c ∈ candidates env t, c.file ≠ t.file) : realClass env t = t :=
+  realClass_of_no_own env t h
+
+open Rattr.Cross in
+/-- the class that is looked up always has the call target's name (classes are matched by NAME;
+the interface may differ because the class analyser re-registers the class). -/
+theorem C08_cross_class_same_name (env : Cross.Env) (t : FSym) (hk : t.kind = .cls) :
+    (realClass env t).kind = .cls ∧ (realClass env t).name = t.name := by
+  rcases realClass_eq env t with he | hm
+  · rw [he]; exact ⟨hk, rfl⟩
+  · exact candidates_spec hm
+
+open Rattr.Cross in
+/-- `target_ir[symbol]` after `__is_defined_in(symbol, target_ir)` cannot raise `KeyError`: the
+model's `importError` in that branch is unreachable. -/
+theorem C08_cross_target_lookup_total (ir : FIr) (s : FSym) (h : isDefinedIn s ir = true) :
+    (lookupIdx ir s).isSome = true := lookupIdx_of_isDefinedIn h
+
+section CrossCex
+open Rattr.Cross
+
+def ifA : Option (Iface Str) := some ⟨[], ["a".toList], none, [], none⟩
+def ifSelfA : Option (Iface Str) := some ⟨[], ["self".toList, "a".toList], none, [], none⟩
+def tgtFile : Str := "target.py".toList
+def impFile : Str := "imp1.py".toList
+
+/-- target.py: `def util(a)`, `class K` with `__init__(self, a)`, `def t(a)`;
+imp1.py: `def util(a)`, `class K` with `__init__(self, a)`, `class J` WITHOUT `__init__` (no IR),
+`def use(a)`. -/
+def envSame : Cross.Env :=
+  { target := [⟨.func, "util".toList, ifA, tgtFile⟩, ⟨.cls, "K".toList, ifSelfA, tgtFile⟩,
+               ⟨.cls, "J".toList, ifSelfA, tgtFile⟩, ⟨.func, "t".toList, ifA, tgtFile⟩],
+    imports := [("imp1".toList, [⟨.func, "util".toList, ifA, impFile⟩, ⟨.cls, "K".toList, ifSelfA, impFile⟩,
+                                 ⟨.func, "use".toList, ifA, impFile⟩])],
+    moduleOf := [(tgtFile, "target".toList), (impFile, "imp1".toList)] }
+
+/-- TEST of the repaired rule against the rule before 2103117 / 8b74e12: a call made inside imp1 to
+imp1's own `util(a)` / `K(a)` — the old rule answers with the TARGET file's `util` / `K` (key 0 / 1
+of the target IR), the pinned rule with imp1's. -/
+theorem C08_test_cross_same_named :
+    resolveOld envSame ⟨.func, "util".toList, ifA, impFile⟩ = .found .target 0 ∧
+    resolve envSame ⟨.func, "util".toList, ifA, impFile⟩ = .found (.import_ "imp1".toList) 0 ∧
+    resolveOld envSame ⟨.cls, "K".toList, none, impFile⟩ = .found .target 1 ∧
+    resolve envSame ⟨.cls, "K".toList, none, impFile⟩ = .found (.import_ "imp1".toList) 1 ∧
+    -- and the target's own calls stay with the target
+    resolve envSame ⟨.func, "util".toList, ifA, tgtFile⟩ = .found .target 0 ∧
+    resolve envSame ⟨.cls, "K".toList, none, tgtFile⟩ = .found .target 1 := by decide
+
+/-- TEST (the former defect witness, repaired by bb30ccd): imp1's `class J` has no `__init__`, so
+it is no key of imp1's IR; the call `J(a)` made inside imp1 is now NOT expanded at all (`ImportError`
+→ "unable to resolve initialiser") … -/
+theorem C08_test_class_without_init_not_expanded :
+    resolve envSame ⟨.cls, "J".toList, none, impFile⟩ = .importError ∧
+    expandedFrom envSame ⟨.cls, "J".toList, none, impFile⟩ = none := by
+  decide
+
+/-- … whereas the rule of 8b74e12 … 6f46129 fell back to the FIRST class named `J` of any file —
+the target's — and inlined the target's `J.__init__` into imp1's function. -/
+theorem C08_cex_fallback_rule_class_without_init_takes_foreign_init :
+    resolveFallback envSame ⟨.cls, "J".toList, none, impFile⟩ = .found .target 2 ∧
+    expandedFromFallback envSame ⟨.cls, "J".toList, none, impFile⟩
+      = some ⟨.cls, "J".toList, ifSelfA, tgtFile⟩ := by
+  decide
+
+theorem envSame_wf : WF envSame := WF_of_wfCheck (by decide)
+
+/-- the cross-module clause of the property: in a well-formed environment every call is expanded
+from a definition located in the file of the call's own target symbol. -/
+def C08_cross_full : Prop :=
+  ∀ (env : Cross.Env) (t k : FSym), WF env → expandedFrom env t = some k → k.file = t.file
+
+/-- it HOLDS for the pinned code (since bb30ccd), for functions, lambdas, static methods and classes. -/
+theorem C08_cross_full_holds : C08_cross_full := by
+  intro env t k hwf h
+  by_cases hk : t.kind = .cls
+  · exact (C08_cross_class_from_own_module env hwf t k hk h).2.2
+  · exact (C08_cross_function_from_own_module env hwf t k hk h).2.2.2
+
+/-- the same clause for the rule before bb30ccd fails — exactly through classes without an
+initialiser. -/
+theorem C08_cross_full_false_before_bb30ccd :
+    ¬ (∀ (env : Cross.Env) (t k : FSym), WF env → expandedFromFallback env t = some k → k.file = t.file) := by
+  intro h
+  have := h envSame ⟨.cls, "J".toList, none, impFile⟩ _ envSame_wf
+    C08_cex_fallback_rule_class_without_init_takes_foreign_init.2
+  revert this; decide
+
+/-- in particular for every `Func` target (functions, lambdas, static methods). -/
+theorem C08_cross_full_holds_for_functions (env : Cross.Env) (t k : FSym) (hwf : WF env)
+    (hk : t.kind ≠ .cls) (h : expandedFrom env t = some k) : k.file = t.file :=
+  (C08_cross_function_from_own_module env hwf t k hk h).2.2.2
+
+end CrossCex
+
 /-! ### non-vacuity -/
 
 example : startsWith (nameOf "@Constant.join()".toList) ['@'] = true := by decide
@@ -451,5 +703,17 @@ example : targetInImportedModule
     [[("math".toList, { kind := .import_, name := "math".toList, qual := "math".toList, modExists := true })]]
     "math.sin".toList =
     some { kind := .import_, name := "sin".toList, callable := true, qual := "math.sin".toList } := by decide
+
+-- `C08_dotted_call_through_param` applies to `import pk.sub` / `def run(pk, event): pk.sub.dfn(event)`
+example : (getCallTarget env0
+    (FnA.addArguments { ctx := push [[("pk.sub".toList, pkSubSym)]] }
+      ⟨[], ["pk".toList, "event".toList], none, [], none⟩).ctx "pk.sub.dfn()".toList false true).1 = none :=
+  C08_dotted_call_through_param env0 { ctx := [[("pk.sub".toList, pkSubSym)]] }
+    ⟨[], ["pk".toList, "event".toList], none, [], none⟩ _ false true (by decide) (by decide) (by decide) (by decide)
+-- `C08_cross_function_from_own_module` applies to imp1's own `util` in `envSame`
+example : Cross.expandedFrom envSame ⟨.func, "util".toList, ifA, impFile⟩
+    = some ⟨.func, "util".toList, ifA, impFile⟩ := by decide
+example : ∃ c ∈ Cross.candidates envSame ⟨.cls, "K".toList, none, impFile⟩, c.file = impFile :=
+  ⟨⟨.cls, "K".toList, ifSelfA, impFile⟩, by decide, rfl⟩
 
 end Rattr.C08
